@@ -24,6 +24,7 @@ RULE = ('histories = ALL sequences of length <= 3 and sampled ones of length 4..
         'sequences); twins are rebuilt per sequence.  Non-trivial: the sequence contains at least '
         'one observer call on a model whose architectural parameters were moved; distinct = '
         '(configuration, sequence).')
+RULE += ('  Round 2: MPS models with one convolution excluded from the search and plain params/ops metrics (constant cost of a non-NAS layer under full_cost).')
 ASSUMPTIONS = [
     'a forward in train mode legitimately moves BatchNorm statistics: the twin executes the same '
     'forwards',
